@@ -137,6 +137,57 @@ def build_harness(debug=False):
     return True, ""
 
 
+# ------------------------------------------------------------------ per-property "pre" hooks
+# A property may name a hook in props.py ("pre": "<name>"); it runs after the harness build and returns
+# (ok, error text, environment variables handed to every harness invocation of this check).
+
+CLI_TARGET = os.path.join(WORK, "cli-target")
+CLI_ENV = os.path.join(WORK, "cli-env")
+
+
+def pre_cli():
+    """Build /repo's command-line tool (--features cli) from the CURRENT working tree into
+    .work/cli-target (never inside /repo), prepare the tree-sitter-loader environment .work/cli-env
+    (config + a copy of the python grammar from the cargo registry; the loader compiles it with cc on
+    first use) and check that the binary runs there."""
+    with Lock("cargo"):
+        rc, out = run(["cargo", "build", "--offline", "--features", "cli"], cwd="/repo",
+                      env=dict(ENV, CARGO_TARGET_DIR=CLI_TARGET), timeout=1500)
+    if rc != 0:
+        return False, out[-3000:], {}
+    binary = os.path.join(CLI_TARGET, "debug", "tree-sitter-graph")
+    if not os.path.isfile(binary):
+        return False, "cargo build --features cli produced no %s" % binary, {}
+    with Lock("cli-env"):
+        gdir = os.path.join(CLI_ENV, "grammars", "tree-sitter-python")
+        if not os.path.isfile(os.path.join(gdir, "src", "parser.c")):
+            srcs = sorted(glob.glob(os.path.expanduser("~/.cargo/registry/src/*/tree-sitter-python-0.23.5")))
+            if not srcs:
+                return False, "tree-sitter-python-0.23.5 not found in the cargo registry", {}
+            shutil.rmtree(gdir, ignore_errors=True)
+            os.makedirs(os.path.dirname(gdir), exist_ok=True)
+            shutil.copytree(srcs[0], gdir)
+        cdir = os.path.join(CLI_ENV, "config", "tree-sitter")
+        os.makedirs(cdir, exist_ok=True)
+        os.makedirs(os.path.join(CLI_ENV, "cache"), exist_ok=True)
+        with open(os.path.join(cdir, "config.json"), "w") as f:
+            json.dump({"parser-directories": [os.path.join(CLI_ENV, "grammars")]}, f)
+        warm = os.path.join(CLI_ENV, "warm")
+        os.makedirs(warm, exist_ok=True)
+        open(os.path.join(warm, "w.tsg"), "w").write("(module) @_m { node n }\n")
+        open(os.path.join(warm, "w.py"), "w").write("pass\n")
+        penv = {"PATH": os.environ.get("PATH", "/usr/bin:/bin"), "HOME": os.environ.get("HOME", "/root"), "RUST_BACKTRACE": "0",
+                "XDG_CONFIG_HOME": os.path.join(CLI_ENV, "config"), "XDG_CACHE_HOME": os.path.join(CLI_ENV, "cache"),
+                "TREE_SITTER_DIR": cdir}
+        rc, out = run([binary, "w.tsg", "w.py"], cwd=warm, env=penv, timeout=300)
+    if rc != 0 or not out.endswith("node 0\n"):
+        return False, "the built CLI does not run in %s (rc=%d): %s" % (CLI_ENV, rc, out[-1500:]), {}
+    return True, "", {"TSGV_CLI_BIN": binary, "TSGV_CLI_ENV": CLI_ENV, "TSGV_CLI_SCRATCH": os.path.join(WORK, "cli-scratch")}
+
+
+PRE_HOOKS = {"cli": pre_cli}
+
+
 def coqc_shard(args):
     wd, fname = args
     rc, out = run(["timeout", "900", "coqc", "-noglob", "-Q", THEORIES, "TSG", fname], cwd=wd, timeout=1000)
@@ -284,6 +335,16 @@ def main(argv):
         write_evidence(prop, tier, seed, proof, [], [], t0, 1, notes + ["harness build failed"], cfg)
         log("VIOLATION property=%s replay=%s no-failing-input-found" % (prop, path))
         return 1
+
+    if cfg.get("pre"):
+        ok, err, hook_env = PRE_HOOKS[cfg["pre"]]()
+        if not ok:
+            log("[%s] pre-step '%s' failed against /repo working tree:\n%s" % (prop, cfg["pre"], err))
+            path = write_replay(prop, seed, "pre-" + cfg["pre"], {"property": prop, "what": "pre-step '%s' failed (for 'cli': the command-line tool does not build/run from /repo)" % cfg["pre"], "log": err})
+            write_evidence(prop, tier, seed, proof, [], [], t0, 1, notes + ["pre-step %s failed" % cfg["pre"]], cfg)
+            log("VIOLATION property=%s replay=%s no-failing-input-found" % (prop, path))
+            return 1
+        ENV.update(hook_env)   # every later harness invocation (gen, replay, shrink) sees these variables
 
     if replay_file:
         rp = json.load(open(replay_file))
